@@ -34,12 +34,15 @@ type c19Params struct {
 	// schedule min(initial*2^i, maximum).
 	InitMs int `json:"init_ms,omitempty"`
 	MaxMs  int `json:"max_ms,omitempty"`
+	// WallAhead: the wall clock of the run reads 2031, AFTER the time the configurations report (2030); normally
+	// it reads 2024, before it. Timers and deadlines belong to the wall clock, whichever way the two differ.
+	WallAhead bool `json:"wall_ahead,omitempty"`
 }
 
 func (c19) ID() string    { return "C19" }
 func (c19) Level() string { return "fault_enumeration" }
 func (c19) Rule() string {
-	return "real DTLCP client and server under virtual time on a network that applies a plan of at most k faults to the datagrams of the handshake and is reliable afterwards. Fault kinds per datagram: drop, duplicate, short delay (overtaken by the next datagram), long delay (past the retransmission timeout). k=0 (control: no timer may expire), all k=1 plans, all k=2 plans over the datagrams of the fault-free handshake, seeded k=3 plans (thorough), for full and resumed handshakes, suites, with client authentication; the schedule (including the order of simultaneous timer expiries) comes from the seed. Additionally, with configured timers whose maximum is not initial*2^n (1 s..1.5 s, 0.4 s..1 s, 0.6 s..0.6 s), the same flight lost two and three times in a row. Oracle: both endpoints complete within the sum of the first k values of the retransmission schedule (initial timeout doubling up to the configured maximum) plus slack of virtual time, agree on all negotiated parameters, and an echo in both directions works. distinct = distinct (mode, plan); non-trivial = every planned fault hit a datagram"
+	return "real DTLCP client and server under virtual time on a network that applies a plan of at most k faults to the datagrams of the handshake and is reliable afterwards. Fault kinds per datagram: drop, duplicate, short delay (overtaken by the next datagram), long delay (past the retransmission timeout). k=0 (control: no timer may expire), all k=1 plans, all k=2 plans over the datagrams of the fault-free handshake, seeded k=3 plans (thorough), for full and resumed handshakes, suites, with client authentication; the schedule (including the order of simultaneous timer expiries) comes from the seed. Additionally, with configured timers whose maximum is not initial*2^n (1 s..1.5 s, 0.4 s..1 s, 0.6 s..0.6 s), the same flight lost two and three times in a row; single losses and duplications also with the wall clock AFTER the configured time (normally it is before it). Oracle: both endpoints complete within the sum of the first k values of the retransmission schedule (initial timeout doubling up to the configured maximum) plus slack of virtual time, agree on all negotiated parameters, and an echo in both directions works. distinct = distinct (mode, plan); non-trivial = every planned fault hit a datagram"
 }
 func (c19) Components() (real, stub []string) {
 	return []string{"dtlcp client+server (instrumented): flights, retransmission, back-off, dwell, replay window"},
@@ -102,6 +105,11 @@ func c19List(tier string) []c19Params {
 				for _, s := range slots {
 					for _, k := range c19Kinds {
 						out = append(out, c19Params{Suite: m.suite, Auth: m.auth, Resumed: resumed, Plan: []simnet.DFault{c19Fault(s.dir, s.name, k)}})
+					}
+				}
+				for _, s := range slots {
+					for _, k := range []string{simnet.FDrop, simnet.FDup} {
+						out = append(out, c19Params{Suite: m.suite, Auth: m.auth, Resumed: resumed, WallAhead: true, Plan: []simnet.DFault{c19Fault(s.dir, s.name, k)}})
 					}
 				}
 				for _, s := range slots {
@@ -275,6 +283,9 @@ func c19RunPlan(c *Case, src *vs.Src, p *c19Params, plan []simnet.DFault, r *Res
 	for conn := 0; conn < conns; conn++ {
 		w := NewWorld(c.Seed+uint64(conn), src)
 		w.K.MaxElapsed = 400 * time.Second
+		if p.WallAhead {
+			w.K.SetClock(time.Date(2031, 3, 1, 0, 0, 0, 0, time.UTC))
+		}
 		env := NewEnv(w)
 		env.DCaches["c"], env.DCaches["s"] = ccache, scache
 		pair := NewPair(DTLCP, env, cc, sc, fmt.Sprintf("c%d", conn), fmt.Sprintf("s%d", conn), "client:1", "server:443")
@@ -371,7 +382,7 @@ func (c19) Run(c *Case, src *vs.Src) *Result {
 	}
 	sigp := "C19 " + mode
 	res := c19RunPlan(c, src, p, p.Plan, r, sigp)
-	r.Key = hashKey(p.Suite, p.Auth, p.Resumed, p.InitMs, p.MaxMs, planSig(p.Plan))
+	r.Key = hashKey(p.Suite, p.Auth, p.Resumed, p.InitMs, p.MaxMs, p.WallAhead, planSig(p.Plan))
 	if res.setup != "" {
 		r.Violate("setup", sigp+" setup-failed", "%s", res.setup)
 		return r
